@@ -39,4 +39,13 @@ def extra_overlay(repo, wd, prop=None):
         out = os.path.join(wd, "peer_store_sched.go")
         open(out, "w").write(text2)
         rep[src] = out
+    if pdef.get("listen_rewrite"):
+        # frontend/http/frontend.go with the call token net.Listen( replaced by verifListen( (shim zz_verif_listen.go):
+        # the driver can then make a listener's Close report an error (fault injection for Stop)
+        src = os.path.join(repo, "frontend", "http", "frontend.go")
+        text = open(src).read()
+        text2 = re.sub(r"\bnet\.Listen\(", "verifListen(", text)
+        out = os.path.join(wd, "http_frontend_listen.go")
+        open(out, "w").write(text2)
+        rep[src] = out
     return rep
